@@ -27,7 +27,7 @@ extern uint64_t g_N;
 #define DYNP(p)       (*(E **)(B(p)->_storage._el))
 #define V_SMALL(p)    (B(p)->_capa < B(p)->_size)
 #define V_WORDS_OK(p) (V_SMALL(p) ? ((B(p)->_size == g_N && B(p)->_capa < g_N) || (B(p)->_size == KMAX && B(p)->_capa == g_N)) \
-                                  : (B(p)->_size <= B(p)->_capa && B(p)->_capa >= 1))
+                                  : (B(p)->_size <= B(p)->_capa && ((B(p)->_capa == 0) == (DYNP(p) == (E *)0))))
 #define V_SIZE(p)     ((uint64_t)(V_SMALL(p) ? B(p)->_capa : B(p)->_size))
 #define V_CAPA(p)     ((uint64_t)(V_SMALL(p) ? g_N : B(p)->_capa))
 #define V_DATA(p)     (V_SMALL(p) ? INL(p) : DYNP(p))
@@ -109,14 +109,14 @@ extern uint64_t g_N;
 #endif
 #define V_ALIGN_OK(p) (V_LOC_OK(g_cell_obj, g_cell_off, p) && (!g_tok_on || V_LOC_OK(g_tok_obj, g_tok_off, p)))
 /* memory shape + words of one container operand, for requires clauses (evaluated left to right) */
-#define V_REQ(p) (V_FRESH(p, V_OBJ_BYTES) && V_WORDS_OK(p) && (V_HEAP(p) ==> V_FRESH(DYNP(p), V_HEAP_BYTES(p))) && \
+#define V_REQ(p) (V_FRESH(p, V_OBJ_BYTES) && V_WORDS_OK(p) && ((V_HEAP(p) && V_HEAP_BYTES(p) != 0) ==> V_FRESH(DYNP(p), V_HEAP_BYTES(p))) && \
                   V_ALIGN_OK(p) && V_CELL_OK(p) && V_TOK_OK(p) && V_BLK_OK(p))
 /* same shape, but every element has already been destroyed (state in which the base-class destructor runs) */
-#define V_REQ_DEAD(p) (V_FRESH(p, V_OBJ_BYTES) && V_WORDS_OK(p) && (V_HEAP(p) ==> V_FRESH(DYNP(p), V_HEAP_BYTES(p))) && \
+#define V_REQ_DEAD(p) (V_FRESH(p, V_OBJ_BYTES) && V_WORDS_OK(p) && ((V_HEAP(p) && V_HEAP_BYTES(p) != 0) ==> V_FRESH(DYNP(p), V_HEAP_BYTES(p))) && \
                   V_ALIGN_OK(p) && (CAT_TC || !V_OWNS_OBJ(p, g_cell_obj) || g_cell_st == ST_RAW) && !(g_tok_on && V_OWNS_OBJ(p, g_tok_obj)) && V_BLK_OK(p))
 #define V_POST(p) (V_WORDS_OK(p) && V_CELL_OK(p) && V_TOK_OK(p) && V_BLK_OK(p))
 /* cell and token agree where they coincide */
-#define GHOST_OK (g_blk_state != BLK_FREED && (!g_tok_on || !(g_tok_obj == g_cell_obj && g_tok_off == g_cell_off) || (g_cell_st == ST_LIVE && g_cell_val == g_tokval)) && l0_exc == 0)
+#define GHOST_OK (g_blk_state != BLK_FREED && g_blk_obj != 0 && (!g_tok_on || !(g_tok_obj == g_cell_obj && g_tok_off == g_cell_off) || (g_cell_st == ST_LIVE && g_cell_val == g_tokval)) && l0_exc == 0)
 /* the tracked block is consistent with the container: its heap buffer is an outstanding block of capacity*ESZ bytes */
 #define V_BLK_OK(p) (g_blk_obj != OBJ(p) && (!V_HEAP(p) || g_blk_obj != OBJ(V_DATA(p)) || (g_blk_state == BLK_ALLOCATED && g_blk_bytes == V_HEAP_BYTES(p))))
 /* a location that belongs to no buffer of the container */
@@ -225,6 +225,19 @@ extern uint64_t g_cnt;
 
 extern struct vsnap pre_self, pre_o;
 extern struct gsnap pre_g;
+#ifdef FLAVOUR2
+#include "inv2.h"
+/* swap2: the exchange is impossible when a fixed capacity or a size_type cannot hold the other operand's size (or, when heap
+ * buffers change owner, its capacity) */
+#define V_CANNOT_HOLD(n) ((uint64_t)(n) > V_LIMIT)
+#if FLAVOUR2 == FL_STATIC
+#define W_CANNOT_HOLD(n) ((uint64_t)(n) > g_N2)
+#else
+#define W_CANNOT_HOLD(n) ((uint64_t)(n) > (uint64_t)KMAX2)
+#endif
+#define SWAP2_BUFFERS (FLAVOUR != FL_STATIC && FLAVOUR2 != FL_STATIC && pre_self.heap && pre_o.heap)
+#define SWAP2_IMPOSSIBLE (V_CANNOT_HOLD(pre_o.size) || W_CANNOT_HOLD(pre_self.size))
+#endif
 #ifdef WITH_SETS
 #include "inv_sets.h"
 #endif
